@@ -74,7 +74,11 @@ def post_addcolumn(self, col, name, OLD):
     COUNT["evaluations"] += 1
     if self.nrows != OLD.n or name not in self.titles or not _views_ok(self):
         return False
-    if not np.array_equal(np.asarray(self.getcolumn(name), float), np.asarray(col, float), equal_nan=True):
+    got = np.asarray(self.getcolumn(name))
+    want = np.asarray(col, float)
+    # an existing column living in a typed 2-D array keeps that type: numpy's cast of the written values is accepted
+    cast = want.astype(got.dtype).astype(float) if got.dtype.kind in "iuf" else want
+    if not np.array_equal(got.astype(float), want, equal_nan=True) and not np.array_equal(got.astype(float), cast, equal_nan=True):
         return False
     if OLD.cols is not None:
         for t, v in OLD.cols.items():
@@ -127,7 +131,9 @@ def install():
 
     def wrap(name, post, snaps):
         f = getattr(C, name)
-        f = E(post, error=lambda **kw: PostBroken("postcondition %s of columnfile.%s violated" % (post.__name__, name)))(f)
+        def err():
+            return PostBroken("postcondition %s of columnfile.%s violated" % (post.__name__, name))
+        f = E(post, error=err)(f)
         for snapf, nm in snaps:
             f = S(snapf, name=nm)(f)
         setattr(C, name, f)
